@@ -53,6 +53,13 @@ def order(tier, pol, cap=1):
     return _i("order_%s%d" % (pol, cap), progs, acts, cap=cap, pol=pol, red_script=rs, max_tasks=mt)
 
 
+def deep_queue(pol, cap=3):
+    """one producer, a queue of capacity 3 and the reducer free to take items at any moment: the
+    pop / retry logic of the drop policies with several items queued"""
+    progs = [{"c1": [D(i, "trait" if i % 2 else "impl") for i in range(1, cap + 3)], "c2": [O("stop"), O("metrics")]}]
+    return _i("deep_%s%d" % (pol, cap), progs, {i: 0 for i in range(1, cap + 3)}, cap=cap, pol=pol, cb_reads=False)
+
+
 def subs_direct(tier):
     rs = {"r1": {0: red("D"), 1: red("K")}}
     progs = [{"c1": [S("add_sub", "s1"), S("add_sub", "s2"), D(1), D(2), D(3)] + STOP,
@@ -74,10 +81,12 @@ def subs_unsub(tier):
 def stop_race(tier, pol="block", variant=0):
     """dispatchers racing one stopper; dispatch after the stop; a direct and a channeled subscriber"""
     stops = [[O("stop")], [O("close"), O("stop")], [O("stop"), O("stop")], [O("drop_store")],
-             [O("close"), O("drop_store")], [O("drop_store")]][variant]
+             [O("close"), O("drop_store")], [O("drop_store")], [O("stop")]][variant]
     rs = {"r1": {0: red("D"), 1: red("D", eff("task"))}}
     progs = [{"c1": [S("subscribed", "s1"), D(1, "impl"), D(2, "trait")],
               "c2": stops + [D(3, "impl"), O("get_state"), O("metrics")]}]
+    if variant == 6:          # the channeled subscription is being unsubscribed while the store is stopped
+        progs[0]["c1"] = progs[0]["c1"] + [S("unsub", "s1")]
     if variant == 5:          # a second handle stops the store while the droppable one is dropped
         progs[0]["c3"] = [O("stop"), O("get_state")]
     elif tier != "quick":
@@ -337,10 +346,10 @@ def table(pid, tier):
         T = dict(mc=[(a, inv, ["C01_FinalAfterStop"])] + ([] if q else [(b, inv, ["C01_FinalAfterStop"])]),
                  gen=[(a, 1500 if q else 20000)], free=[(b, 150 if q else 1500)])
     elif pid == "C02":
-        insts = [order(tier, p) for p in ("block", "oldest", "latest")]
+        insts = [order(tier, p) for p in ("block", "oldest", "latest")] + [deep_queue("oldest"), deep_queue("latest")]
         inv = ["C02_Order", "C02_ReduceOrder", "C11_Followup"]
-        T = dict(mc=[(i, inv, []) for i in insts], gen=[(i, 700 if q else 10000) for i in insts],
-                 free=[(i, 60 if q else 600) for i in insts])
+        T = dict(mc=[(i, inv, []) for i in insts], gen=[(i, 500 if q else 10000) for i in insts],
+                 free=[(i, 50 if q else 600) for i in insts])
     elif pid == "C03":
         a, b = subs_direct(tier), subs_unsub(tier)
         inv = ["C03_OnlyDispatch", "C03_EveryDispatch", "C03_StateAndOrder", "C03_Stream", "C07_DirectOnReducer",
@@ -348,11 +357,11 @@ def table(pid, tier):
         T = dict(mc=[(a, inv, []), (b, inv, [])], gen=[(a, 800 if q else 20000), (b, 800 if q else 20000)],
                  free=[(a, 100 if q else 1500), (b, 100 if q else 1500)])
     elif pid == "C04":
-        vs = [0, 1] if q else [0, 1, 2]
+        vs = [0, 1, 6] if q else [0, 1, 2, 6]
         insts = [stop_race(tier, "block", v) for v in vs] + ([] if q else [stop_race(tier, "latest", 0), stop_race(tier, "oldest", 0)])
         inv = ["C04_Barrier", "C04_ErrNeverReduced", "C10_Flush"]
-        T = dict(mc=[(i, inv, ["C04_Final"]) for i in insts], gen=[(i, 900 if q else 10000) for i in insts[:2]],
-                 free=[(i, 80 if q else 500) for i in insts], live=[(insts[0], ["Live_ClientsDone", "Live_StopReturns"])])
+        T = dict(mc=[(i, inv, ["C04_Final"]) for i in insts], gen=[(i, 600 if q else 10000) for i in insts[:3]],
+                 free=[(i, 60 if q else 500) for i in insts], live=[(insts[0], ["Live_ClientsDone", "Live_StopReturns"])])
     elif pid == "C05":
         insts = [burst(tier, "block", 1)] + ([] if q else [burst(tier, "block", 2)])
         inv = ["C05_Bound", "C05_NoLoss", "C01_ExactlyOnce"]
@@ -360,10 +369,11 @@ def table(pid, tier):
                  free=[(i, 100 if q else 800) for i in insts],
                  live=[(i, ["Live_ClientsDone", "Live_SendResumes"]) for i in insts])
     elif pid == "C06":
-        insts = [burst(tier, "oldest", 1), burst(tier, "latest", 1)] + ([] if q else [burst(tier, "oldest", 2), burst(tier, "latest", 2)])
+        insts = [burst(tier, "oldest", 1), burst(tier, "latest", 1), deep_queue("oldest")] + \
+            ([] if q else [burst(tier, "oldest", 2), burst(tier, "latest", 2), deep_queue("latest")])
         inv = ["C06_NeverBlocks", "C06_Conservation", "C06_ErrIffDropped", "C06_Exact", "C05_Bound", "C02_Order"]
-        T = dict(mc=[(i, inv, []) for i in insts], gen=[(i, 900 if q else 10000) for i in insts[:2]],
-                 free=[(i, 80 if q else 500) for i in insts])
+        T = dict(mc=[(i, inv, []) for i in insts], gen=[(i, 700 if q else 10000) for i in insts[:3]],
+                 free=[(i, 60 if q else 500) for i in insts])
     elif pid == "C07":
         a = pipeline_reg(tier)
         inv = ["C07_ReducerContext", "C07_DirectOnReducer", "C07_Registered", "C07_InitRegistered", "C01_Fold"]
